@@ -34,7 +34,7 @@ func eqConstsOn(fn *ssa.Function, isSubject func(ssa.Value) bool) map[int64]bool
 	out := map[int64]bool{}
 	eachInstr(fn, func(in ssa.Instruction) {
 		bo, ok := in.(*ssa.BinOp)
-		if !ok || bo.Op != token.EQL {
+		if !ok || (bo.Op != token.EQL && bo.Op != token.NEQ) { // `x != K { refuse }` is the one-arm spelling of `switch x { case K: ... default: refuse }`
 			return
 		}
 		if isSubject(bo.X) {
